@@ -146,4 +146,36 @@ func init() {
 		Outside: []string{"longer strings", "more than 2 concatenated messages except through the lemma 'every non-empty wire form ends in exactly one blank line, has no inner blank line and no CR' (asserted)"},
 		Oracle:  "independent WHATWG interpreter in browser mode (dispatch only on non-empty data buffer) and go-sse's own Read over the concatenated wire forms: one event per message with data, Data = LF-join of the independently split lines of the appended strings, Type and most recent NUL-free ID as set",
 	}
+
+	checks["C16"] = &propCheck{
+		ID: "C16",
+		Quick: []hrun{
+			{Harness: "vhC16Session", Params: P("K", 3), Covers: []string{"C16/Session/body-written", "C16/Session/failure-surfaced"}},
+			{Harness: "vhC16Serve", Params: P("N", 3), Covers: []string{"C16/Serve/last-event-id-passed", "C16/Serve/rejected", "C16/Serve/subscribe-error"}},
+		},
+		Thorough: []hrun{
+			{Harness: "vhC16Session", Params: P("K", 5), Covers: []string{"C16/Session/body-written", "C16/Session/failure-surfaced"}},
+			{Harness: "vhC16Serve", Params: P("N", 5), Covers: []string{"C16/Serve/last-event-id-passed", "C16/Serve/rejected", "C16/Serve/subscribe-error"}},
+		},
+		Labels: []string{"C16/"},
+		Bounds: map[string]string{
+			"quick":    "every sequence of 3 Send/Flush operations over 3 message kinds (data, id+multi-line data, nothing to write), 8 ResponseWriter shapes (none, Flusher, FlushError, both, wrapped once/twice through Unwrap), the failing Write/flush call index symbolic (every position, or none); ServeHTTP: OnSession absent / nil / empty / 1-2 topics (symbolic) / rejecting, Last-Event-Id absent / any string <=3 bytes / two values, provider accepting or refusing",
+			"thorough": "sequences of 5 operations; header values <=5 bytes",
+		},
+		Outside: []string{"real net/http ResponseWriters", "logging (Server.Logger == nil path only)", "http.Error is modelled as WriteHeader(code)+Write(msg)"},
+		Oracle:  "monitor over the ordered log of Header/Write/flush/WriteHeader calls on a recording fault-injecting writer: Content-Type set and successfully flushed before the first body byte, upgrade only once, body = concatenation of the sent encodings (prefix at a failure), a successful Session.Flush is followed by a writer flush after the last write, the injected error is returned by the call where it happened; the Subscription seen by a recording Provider carries the right Last-Event-ID and topics; 500 when the writer cannot flush or the provider refuses",
+	}
+
+	checks["C13"] = &propCheck{
+		ID: "C13",
+		Quick:    []hrun{{Harness: "vhC13", Params: P("K", 5), Covers: []string{"C13/dispatched", "C13/removed"}}, {Harness: "vhC01Conn", Params: P("N", 3, "SEG", 0), Covers: []string{"C01/Conn/some-event"}}},
+		Thorough: []hrun{{Harness: "vhC13", Params: P("K", 6), Covers: []string{"C13/dispatched", "C13/removed"}}, {Harness: "vhC01Conn", Params: P("N", 4, "SEG", 0), Covers: []string{"C01/Conn/some-event"}}},
+		Labels:   []string{"C13/", "lock-discipline/", "C01/Conn/events-equal-spec", "C01/Conn/event-count"},
+		Bounds: map[string]string{
+			"quick":    "every history of 5 operations from {SubscribeEvent(type: symbolic string <=1 byte), SubscribeMessages, SubscribeToAll, call any earlier remover (also repeatedly / stale after re-subscription), dispatch an event of symbolic type <=1 byte}; during each dispatch a second goroutine may call any remover at any callback boundary and completes iff it can take the lock; lock discipline of callbacks/callbacksAll/callbackID checked on every access; stream order -> dispatch order through Connection.read for all streams <=3 bytes",
+			"thorough": "histories of 6 operations; streams <=4 bytes",
+		},
+		Outside: []string{"true parallel executions and the race detector's view (decided here: the lock discipline on every sequential path plus unsubscription by a second goroutine at callback boundaries)", "callbacks that re-enter the Connection themselves", "Go's map iteration order is taken as insertion order (assertions are order-insensitive across callbacks)"},
+		Oracle:  "flat list of (callback, kind, type, active, position of the log at which its remover returned): after every dispatch each active matching callback was invoked exactly once with the event, no other, and no callback is invoked at a log position after its remover returned",
+	}
 }
